@@ -144,8 +144,13 @@ def _run(params, values):
         raised = e
     except Exception as e:
         return [exc_record(e, "render")], "raised"
+    # with a concrete document everything below is a concrete computation: run it at native speed
+    import contextlib
+
+    native = no_tracing if params.get("free_pos") is None else contextlib.nullcontext
     try:
-        tout = twin.render(doc)
+        with native():
+            tout = twin.render(doc)
     except Exception as e:
         return [exc_record(e, "twin-render")], "raised"
     if inj.raised and raised is None:
@@ -161,7 +166,8 @@ def _run(params, values):
     inj.target = -1  # stop injecting; the instance must now behave like the twin
     for p in PROBES:
         try:
-            a, b = md.render(p), twin.render(p)
+            with no_tracing():
+                a, b = md.render(p), twin.render(p)
         except Exception as e:
             recs.append(dict(exc_record(e, "probe-after-exception"), callback="/".join(cbs[which][1:])))
             break
@@ -188,7 +194,8 @@ def _rr_run(params, values):
         if params.get("warm"):
             md.render(PROBES[0])
     entry = md.get_active_rules()
-    entry_out = [md.render(p) for p in PROBES]
+    with no_tracing():
+        entry_out = [md.render(p) for p in PROBES]
     kind = EXCS[realize(values["ek"])]
     mode = realize(values["exit"])  # 0 normal, 1 exception, 2 nested normal + outer exception, 3 nested inner exception caught outside
     recs = []
@@ -225,7 +232,8 @@ def _rr_run(params, values):
     if md.get_active_rules() != entry:
         recs.append({"key": "reset_rules-not-restored", "exit": ["normal", "exception", "nested+outer-exception", "nested-inner-exception"][mode]})
     else:
-        outs = [md.render(p) for p in PROBES]
+        with no_tracing():
+            outs = [md.render(p) for p in PROBES]
         if outs != entry_out:
             recs.append({"key": "probe-differs-after-exception", "callback": "reset_rules"})
     return recs, [mode, md.get_active_rules()]
